@@ -107,10 +107,75 @@ def compare(cases, flows, codepoints):
         O.sample({'A5': 'code points whose lower-casing contains a tag letter: %d, identical in node and CPython' % len(py)})
 
 
+def _js_computed(source, start_marker):
+    """text of `const X = computed(() => { ... });` (brace matching)"""
+    start = source.index(start_marker)
+    i = source.index('{', start)
+    depth = 0
+    while True:
+        if source[i] == '{':
+            depth += 1
+        elif source[i] == '}':
+            depth -= 1
+            if depth == 0:
+                break
+        i += 1
+    return source[start:source.index(';', i) + 1]
+
+
+def check_filtered_totals():
+    """"so totals recomputed in the browser when filtering agree with the totals tally prints": the report's own filteredViewTotals (run unmodified under node
+    on the data embedded in a report, with a filter that every transaction passes) against the figures of analyze_transactions - for merchants whose
+    transactions are not all tagged alike (the merchant's tags are the union over its transactions)"""
+    from datetime import datetime
+    from tally.analyzer import analyze_transactions, write_summary_file_vue
+    js_src = open(JS_PATH, encoding='utf-8').read()
+    classification = js_src[js_src.index('const INCOME_TAG'):js_src.index('// ========== REUSABLE COMPONENTS')]
+    totals_code = _js_computed(js_src, 'const filteredViewTotals = computed(')
+
+    def T(merchant, amount, tags, m=1, d=5):
+        return {'merchant': merchant, 'category': 'Cat', 'subcategory': 'Sub', 'amount': amount, 'date': datetime(2025, m, d), 'description': merchant,
+                'raw_description': merchant.upper(), 'source': 'Card', 'tags': list(tags), 'location': None}
+    suites = {
+        'transfer_tag_on_one_of_two': [T('Venmo', 50.0, []), T('Venmo', -300.0, ['transfer'], 1, 20), T('Grocer', 100.0, [], 2, 3)],
+        'income_tag_on_one_of_two': [T('Acme', -1000.0, ['income']), T('Acme', 12.25, [], 2, 2), T('Grocer', 100.0, [], 2, 3)],
+        'investment_and_refund': [T('Broker', 200.0, ['investment']), T('Broker', 15.0, [], 1, 9), T('Store', -7.5, ['refund'], 2, 1), T('Store', 30.0, [], 2, 2)],
+        'uniform_tags': [T('Bank', 80.0, ['transfer']), T('Bank', -60.0, ['Transfer'], 1, 9), T('Grocer', 100.0, [], 2, 3)],
+    }
+    d = tempfile.mkdtemp(prefix='c13f-')
+    try:
+        for name, txns in suites.items():
+            O.case(('filtered_totals', name))
+            stats = analyze_transactions([dict(t, tags=list(t['tags'])) for t in txns])
+            path = os.path.join(d, 'r.html')
+            write_summary_file_vue(stats, path, sources=['Card'], embedded_html=True)
+            text = open(path, encoding='utf-8').read()
+            i = text.index('window.spendingData = ') + len('window.spendingData = ')
+            data = json.JSONDecoder().raw_decode(text[i:].replace('<\\/', '</'))[0]
+            script = (classification + '\nconst computed = f => ({ get value() { return f(); } });\n' + 'const filteredCategoryView = { value: ' + json.dumps(data['categoryView']) + ' };\n'
+                      + totals_code + '\nconsole.log(JSON.stringify(filteredViewTotals.value));\n')
+            jp = os.path.join(d, 'browser.js')
+            open(jp, 'w').write(script)
+            r = subprocess.run(['node', jp], capture_output=True, text=True, timeout=120)
+            if r.returncode != 0:
+                O.fail('C13.filtered_totals_script_failed', {'filtered_totals': name}, 'node runs the report code', r.stderr[-300:])
+                continue
+            js = json.loads(r.stdout)
+            want = {'spending': stats['spending_total'], 'credits': stats['credits_total'], 'income': stats['income_total'], 'transfers': stats['transfers_net']}
+            got = {k: js.get(k) for k in want}
+            if any(abs(float(got[k] or 0) - float(want[k])) > 0.005 for k in want):
+                O.fail('C13.filtered_totals_differ_from_cli', {'filtered_totals': name, 'transactions': [(t['merchant'], t['amount'], t['tags']) for t in txns]}, want, got,
+                       'filteredViewTotals of spending_report.js (node, unmodified) on the embedded data vs analyze_transactions')
+    finally:
+        shutil.rmtree(d, ignore_errors=True)
+
+
 def main():
     if O.witness:
         w = O.witness
-        if 'flow' in w:
+        if 'filtered_totals' in w:
+            check_filtered_totals()
+        elif 'flow' in w:
             compare([], [w['flow']], False)
         else:
             compare([{'amount': w['amount'], 'tags': w['tags']}], [], False)
@@ -127,6 +192,7 @@ def main():
     flows = [[1000.0, 1200.0, 200.0], [0.0, 0.0, 0.0], [5.5, 2.25, 1.0]]
     O.sample({'amount': 2.5, 'tags': ['Transfer', 'INVESTMENT']})
     compare(cases, flows, True)
+    check_filtered_totals()
     O.finish()
 
 
